@@ -292,7 +292,13 @@ func checkParse(m *Model, f func(enc.ParseReader, bool) (any, error), b []byte, 
 		if i := strings.Index(p, ":"); i >= 0 {
 			p = p[:i]
 		}
-		p = digits.ReplaceAllString(p, "#")
+		// only the innermost field name: the same whether the model is under test or nested
+		if i := strings.LastIndex(p, "."); i >= 0 {
+			p = p[i:]
+		}
+		if i := strings.Index(p, "["); i >= 0 {
+			p = p[:i]
+		}
 		return "decoded value differs at " + p, d
 	}
 	return "", ""
@@ -432,14 +438,14 @@ func evalCase(c *caseID, o evalOpts, st *modelStat) bool {
 	atomic.AddInt64(&nPoints, int64(len(pts)))
 	atomic.AddInt64(&st.Points, int64(len(pts)))
 	type variant struct {
-		crit bool
-		nth  int
-		val  []byte
+		crit  bool
+		cands []uint64
+		val   []byte
 	}
-	vars := []variant{{false, 0, insVal}, {false, 1, nil}, {true, 0, insVal}, {true, 1, nil}}
+	vars := []variant{{false, nonCritEven, insVal}, {false, nonCritLowest, nil}, {true, critLowEven, insVal}, {true, critOddHigh, nil}}
 	if o.thorough {
 		big := pattern(300, 0x55)
-		vars = append(vars, variant{false, 2, big}, variant{true, 2, big})
+		vars = append(vars, variant{false, nonCritWide, big}, variant{true, critOddWide, big})
 	}
 	for pi := range pts {
 		ip := &pts[pi]
@@ -447,11 +453,7 @@ func evalCase(c *caseID, o evalOpts, st *modelStat) bool {
 			atomic.StoreInt64(&st.MaxDepthSeen, d)
 		}
 		for _, vr := range vars {
-			cands := nonCritCands
-			if vr.crit {
-				cands = critCands
-			}
-			typ := pickUnknown(ip.lv, cands, vr.nth)
+			typ := pickUnknown(ip.lv, vr.cands)
 			ins := appendVarNum(nil, typ)
 			ins = appendVarNum(ins, uint64(len(vr.val)))
 			ins = append(ins, vr.val...)
